@@ -89,7 +89,6 @@ theorem Inv3U.step_u1 (I : Inv1 c s) (J : Inv2 c s) (K : Inv3 c s) (U : Inv3U s)
     clear hcell l4 b1 b2
     cases hx : cl.item <;> simp only [hx] at * <;> u_close
   all_goals (clear l4 b1 b2; try u_close)
-  all_goals (trace_state; sorry)
 
 set_option maxHeartbeats 4000000 in
 theorem Inv3U.step_u2 (I : Inv1 c s) (J : Inv2 c s) (K : Inv3 c s) (U : Inv3U s) (h : StepCase c s t lb s') :
@@ -151,7 +150,6 @@ theorem Inv3U.step_u2 (I : Inv1 c s) (J : Inv2 c s) (K : Inv3 c s) (U : Inv3U s)
     clear hcell l4 b1 b2
     cases hx : cl.item <;> simp only [hx] at * <;> u_close
   all_goals (clear l4 b1 b2; try u_close)
-  all_goals (trace_state; sorry)
 
 set_option maxHeartbeats 4000000 in
 theorem Inv3U.step_u3 (I : Inv1 c s) (J : Inv2 c s) (K : Inv3 c s) (U : Inv3U s) (h : StepCase c s t lb s') :
@@ -213,7 +211,6 @@ theorem Inv3U.step_u3 (I : Inv1 c s) (J : Inv2 c s) (K : Inv3 c s) (U : Inv3U s)
     clear hcell l4 b1 b2
     cases hx : cl.item <;> simp only [hx] at * <;> u_close
   all_goals (clear l4 b1 b2; try u_close)
-  all_goals (trace_state; sorry)
 
 set_option maxHeartbeats 4000000 in
 theorem Inv3U.step_u4 (I : Inv1 c s) (J : Inv2 c s) (K : Inv3 c s) (U : Inv3U s) (h : StepCase c s t lb s') :
@@ -275,7 +272,6 @@ theorem Inv3U.step_u4 (I : Inv1 c s) (J : Inv2 c s) (K : Inv3 c s) (U : Inv3U s)
     clear hcell l4 b1 b2
     cases hx : cl.item <;> simp only [hx] at * <;> u_close
   all_goals (clear l4 b1 b2; try u_close)
-  all_goals (trace_state; sorry)
 
 set_option maxHeartbeats 4000000 in
 theorem Inv3U.step_u5 (I : Inv1 c s) (J : Inv2 c s) (K : Inv3 c s) (U : Inv3U s) (h : StepCase c s t lb s') :
@@ -337,7 +333,6 @@ theorem Inv3U.step_u5 (I : Inv1 c s) (J : Inv2 c s) (K : Inv3 c s) (U : Inv3U s)
     clear hcell l4 b1 b2
     cases hx : cl.item <;> simp only [hx] at * <;> u_close
   all_goals (clear l4 b1 b2; try u_close)
-  all_goals (trace_state; sorry)
 
 set_option maxHeartbeats 4000000 in
 theorem Inv3U.step_u6 (I : Inv1 c s) (J : Inv2 c s) (K : Inv3 c s) (U : Inv3U s) (h : StepCase c s t lb s') :
@@ -399,7 +394,6 @@ theorem Inv3U.step_u6 (I : Inv1 c s) (J : Inv2 c s) (K : Inv3 c s) (U : Inv3U s)
     clear hcell l4 b1 b2
     cases hx : cl.item <;> simp only [hx] at * <;> u_close
   all_goals (clear l4 b1 b2; try u_close)
-  all_goals (trace_state; sorry)
 
 end
 end Babylon.Exec
